@@ -84,73 +84,7 @@ func runConcCase(c map[string]interface{}, goroutines, rounds int) map[string]in
 	plugin.SetDefaultRegistry(reg)
 	pcSlots = map[int]*pcSlot{}
 
-	confT := reflect.TypeOf(pcConf{})
-	argT := []reflect.Type{confT}
-	if cfg == "ptr" {
-		argT = []reflect.Type{reflect.PtrTo(confT)}
-	}
-	prodT := pluginIface
-	if impl {
-		prodT = implType
-	}
-	mk := func(conf interface{}) reflect.Value {
-		v := reflect.New(prodT).Elem()
-		v.Set(reflect.ValueOf(&prProduct{conf: conf}))
-		return v
-	}
-	nilErr := reflect.Zero(errType)
-	var ctor reflect.Value
-	if ret == "comp" {
-		outs := []reflect.Type{prodT}
-		if cerr {
-			outs = append(outs, errType)
-		}
-		ctor = reflect.MakeFunc(reflect.FuncOf(argT, outs, false), func(in []reflect.Value) []reflect.Value {
-			res := []reflect.Value{mk(in[0].Interface())}
-			if cerr {
-				res = append(res, nilErr)
-			}
-			return res
-		})
-	} else {
-		fouts := []reflect.Type{prodT}
-		if ferr {
-			fouts = append(fouts, errType)
-		}
-		factT := reflect.FuncOf(nil, fouts, false)
-		outs := []reflect.Type{factT}
-		if cerr {
-			outs = append(outs, errType)
-		}
-		ctor = reflect.MakeFunc(reflect.FuncOf(argT, outs, false), func(in []reflect.Value) []reflect.Value {
-			conf := in[0].Interface()
-			f := reflect.MakeFunc(factT, func([]reflect.Value) []reflect.Value {
-				res := []reflect.Value{mk(conf)}
-				if ferr {
-					res = append(res, nilErr)
-				}
-				return res
-			})
-			res := []reflect.Value{f}
-			if cerr {
-				res = append(res, nilErr)
-			}
-			return res
-		})
-	}
-	var regArgs []interface{}
-	if dflt {
-		d := reflect.MakeFunc(reflect.FuncOf(nil, argT, false), func([]reflect.Value) []reflect.Value {
-			v := reflect.New(confT)
-			v.Elem().FieldByName("A").SetInt(7)
-			v.Elem().FieldByName("B").SetString("d")
-			if cfg == "ptr" {
-				return []reflect.Value{v}
-			}
-			return []reflect.Value{v.Elem()}
-		})
-		regArgs = append(regArgs, d.Interface())
-	}
+	ctor, regArgs := pcConstructor(ret, cfg, cerr, ferr, impl, dflt)
 	reg.Register(pluginIface, "x", ctor.Interface(), regArgs...)
 	userMap := shapeMap(map[string]interface{}{"p": map[string]interface{}{"type": "x", "a": 5, "c": "u"}}, vt.Str(c["shape"]))
 	var holder interface{}
@@ -221,4 +155,167 @@ func runConcCase(c map[string]interface{}, goroutines, rounds int) map[string]in
 	}
 	out["calls"], out["bad"] = calls, bad
 	return out
+}
+
+// ---- Registry.New called concurrently, every call with its own config map (PluginRegistryConc.tla, Ret = "new")
+
+type prPlugin2 interface{ prRec2() *pcConf2 }
+type prProduct2 struct{ conf *pcConf2 }
+
+func (p *prProduct2) prRec2() *pcConf2 { return p.conf }
+
+type pcConf2 struct {
+	A int
+	Z string
+}
+
+func concNewEligible(c map[string]interface{}) bool {
+	return vt.Str(c["reg"]) == "synth" && vt.Str(c["form"]) == "New" && vt.Str(c["fail"]) == "none" &&
+		vt.Str(c["nested"]) == "none" && vt.Str(c["cfg"]) != "none" && vt.Str(c["user"]) == "set" && vt.Str(c["dv"]) == "valid"
+}
+
+// runConcNewCase: G goroutines decode a plugin-typed field (-> pluginconfig.Hook -> Registry.New) at the same time, each call
+// from its OWN map carrying a stamp unique to goroutine and call; even goroutines ask for the case's entry (type prPlugin,
+// name x), odd ones for another plugin type with another config struct.  dec = the stamp the call put into its map,
+// got = the stamp in the config the product holds.
+func runConcNewCase(c map[string]interface{}, goroutines, rounds int) map[string]interface{} {
+	ret, cfg := vt.Str(c["ret"]), vt.Str(c["cfg"])
+	cerr, ferr, impl, dflt := vt.Bool(c["cerr"]), vt.Bool(c["ferr"]), vt.Bool(c["impl"]), vt.Bool(c["dflt"])
+	reg := plugin.NewRegistry()
+	plugin.SetDefaultRegistry(reg)
+	pcSlots = map[int]*pcSlot{}
+	ctor, regArgs := pcConstructor(ret, cfg, cerr, ferr, impl, dflt)
+	reg.Register(pluginIface, "x", ctor.Interface(), regArgs...)
+	reg.Register(reflect.TypeOf((*prPlugin2)(nil)).Elem(), "y", func(conf *pcConf2) prPlugin2 { return &prProduct2{conf: conf} },
+		func() *pcConf2 { return &pcConf2{Z: "z"} })
+	shape := vt.Str(c["shape"])
+	out := map[string]interface{}{"kind": "calls", "c": c, "created": pcCreatedStamp, "calls": []pcCall{}, "bad": 0}
+	// sequential warm-up (compiles the config hooks)
+	warm := &struct{ P prPlugin }{}
+	if err := config.DecodeAndValidate(shapeMap(map[string]interface{}{"p": map[string]interface{}{"type": "x", "a": 1, "c": "u"}}, shape), warm); err != nil {
+		out["bad"] = 1
+		return out
+	}
+	slots := make([]*pcSlot, goroutines)
+	var start, finished sync.WaitGroup
+	start.Add(1)
+	finished.Add(goroutines)
+	for g := 0; g < goroutines; g++ {
+		slots[g] = &pcSlot{base: (g + 1) * 1000000}
+		go func(g int) {
+			defer finished.Done()
+			start.Wait()
+			s := slots[g]
+			for r := 1; r <= rounds; r++ {
+				stamp := s.base + r
+				func() {
+					defer func() {
+						if recover() != nil {
+							s.bad++
+						}
+					}()
+					got := -1
+					if g%2 == 0 {
+						h := &struct{ P prPlugin }{}
+						m := shapeMap(map[string]interface{}{"p": map[string]interface{}{"type": "x", "a": stamp, "c": "u"}}, shape)
+						if err := config.DecodeAndValidate(m, h); err != nil || h.P == nil {
+							s.bad++
+							return
+						}
+						got = int(reflect.Indirect(reflect.ValueOf(h.P.prRec().conf)).FieldByName("A").Int())
+					} else {
+						h := &struct{ P prPlugin2 }{}
+						m := shapeMap(map[string]interface{}{"p": map[string]interface{}{"type": "y", "a": stamp}}, shape)
+						if err := config.DecodeAndValidate(m, h); err != nil || h.P == nil {
+							s.bad++
+							return
+						}
+						got = h.P.prRec2().A
+					}
+					s.calls = append(s.calls, pcCall{G: g + 1, Dec: stamp, Got: got})
+				}()
+			}
+		}(g)
+	}
+	start.Done()
+	finished.Wait()
+	calls, bad := []pcCall{}, 0
+	for _, s := range slots {
+		calls = append(calls, s.calls...)
+		bad += s.bad
+	}
+	out["calls"], out["bad"] = calls, bad
+	return out
+}
+
+// pcConstructor builds the constructor (and default-config func) of a case's shape; it keeps no shared state.
+func pcConstructor(ret, cfg string, cerr, ferr, impl, dflt bool) (reflect.Value, []interface{}) {
+	confT := reflect.TypeOf(pcConf{})
+	argT := []reflect.Type{confT}
+	if cfg == "ptr" {
+		argT = []reflect.Type{reflect.PtrTo(confT)}
+	}
+	prodT := pluginIface
+	if impl {
+		prodT = implType
+	}
+	mk := func(conf interface{}) reflect.Value {
+		v := reflect.New(prodT).Elem()
+		v.Set(reflect.ValueOf(&prProduct{conf: conf}))
+		return v
+	}
+	nilErr := reflect.Zero(errType)
+	var ctor reflect.Value
+	if ret == "comp" {
+		outs := []reflect.Type{prodT}
+		if cerr {
+			outs = append(outs, errType)
+		}
+		ctor = reflect.MakeFunc(reflect.FuncOf(argT, outs, false), func(in []reflect.Value) []reflect.Value {
+			res := []reflect.Value{mk(in[0].Interface())}
+			if cerr {
+				res = append(res, nilErr)
+			}
+			return res
+		})
+	} else {
+		fouts := []reflect.Type{prodT}
+		if ferr {
+			fouts = append(fouts, errType)
+		}
+		factT := reflect.FuncOf(nil, fouts, false)
+		outs := []reflect.Type{factT}
+		if cerr {
+			outs = append(outs, errType)
+		}
+		ctor = reflect.MakeFunc(reflect.FuncOf(argT, outs, false), func(in []reflect.Value) []reflect.Value {
+			conf := in[0].Interface()
+			f := reflect.MakeFunc(factT, func([]reflect.Value) []reflect.Value {
+				res := []reflect.Value{mk(conf)}
+				if ferr {
+					res = append(res, nilErr)
+				}
+				return res
+			})
+			res := []reflect.Value{f}
+			if cerr {
+				res = append(res, nilErr)
+			}
+			return res
+		})
+	}
+	var regArgs []interface{}
+	if dflt {
+		d := reflect.MakeFunc(reflect.FuncOf(nil, argT, false), func([]reflect.Value) []reflect.Value {
+			v := reflect.New(confT)
+			v.Elem().FieldByName("A").SetInt(7)
+			v.Elem().FieldByName("B").SetString("d")
+			if cfg == "ptr" {
+				return []reflect.Value{v}
+			}
+			return []reflect.Value{v.Elem()}
+		})
+		regArgs = append(regArgs, d.Interface())
+	}
+	return ctor, regArgs
 }
